@@ -63,7 +63,9 @@ chk('C16', 'model_checking',
     'different datasets stored in sequence keep their own dataset files. Annotations and log lines are checked verbatim '
     'on symbolic strings; the annotation read-modify-write is one exclusive critical section.',
     'Trusted: in-memory FS contract, token-level models of writers/ModelHash, serialised transactions (C15). '
-    'Counterexamples are re-enacted on a real directory with real models and writers before being reported.',
+    'Counterexamples are re-enacted on a real directory with real models and writers before being reported; fixed '
+    'conformance scenarios run on both sides in every run, and one that fails on the real directory is reported as a '
+    '(concrete) violation.',
     'symbolic execution (CrossHair+z3) of real protocol code with symbolic crash point over a model file system',
     'DESIGN.md section 3 C16', 'E3')
 
@@ -229,7 +231,8 @@ chk('C18', 'other',
     'partitions / subsets are exact for all distinct element values n<=4 (5); modelsearch exhaustive / stepwise / '
     'reduced_stepwise and the iivsearch brute-force builders enumerate exactly the documented candidates, once each with '
     'unique names, for every subset of a 6 (8)-key universe; stringify(parse(.)) is the identity on the table statements.',
-    'Object side only: MFL text as arbitrary input, expand/@refs and runtime IIV strategies are outside. Operand options '
+    'Object side, plus LET references in COVARIATE statements (table of statement shapes); MFL text as arbitrary input, '
+    'expand/@built-in refs and runtime IIV strategies are outside. Operand options '
     'are table-indexed (one solver path per entry, concrete execution after indexing). 12 deviation regions are separate '
     'finding obligations listed in known_findings.json.',
     'symbolic execution (CrossHair+z3) of real MFL algebra / enumeration code vs set semantics',
